@@ -454,11 +454,12 @@ def oracle(fb, answer, exp):
     if t[k + 1] != 'true':
         return ('bad-references', 'dimension references / record dimension use invalid')
     consumed = int(t[k + 2])
-    s = exp['schema']
-    if H.logical(dict(d, vars=[dict(v, begin=0) for v in d['vars']])) != H.logical(dict(s, vars=[dict(v, begin=0) for v in s['vars']])):
-        return ('schema', 'decoded schema differs from the defined one')
-    if any(x['size'] == 0 for x in s['dims']) and d['numrecs'] != s['numrecs']:
-        return ('numrecs', 'numrecs in the file %d, records written %d' % (d['numrecs'], s['numrecs']))
+    s = exp.get('schema')
+    if s is not None:
+        if H.logical(dict(d, vars=[dict(v, begin=0) for v in d['vars']])) != H.logical(dict(s, vars=[dict(v, begin=0) for v in s['vars']])):
+            return ('schema', 'decoded schema differs from the defined one')
+        if any(x['size'] == 0 for x in s['dims']) and d['numrecs'] != s['numrecs']:
+            return ('numrecs', 'numrecs in the file %d, records written %d' % (d['numrecs'], s['numrecs']))
     # layout rules on the begins stored in the file
     hlen = consumed
 
@@ -520,7 +521,7 @@ def oracle(fb, answer, exp):
             return ('alignment', 'record section at %d, requested alignment %d' % (recs[0]['begin'], ra))
     # data at the offsets the FILE states
     for k, v in enumerate(d['vars']):
-        dd = exp['data'].get(k)
+        dd = exp.get('data', {}).get(k)
         if dd is None:
             continue
         if isrec(v):
@@ -783,6 +784,64 @@ def run_check(tier, seed):
         cleanup(wd)
 
 
+def replay_file(path):
+    """./check C03 --replay <replays/C03-*.json>: execute the stored script again (1 and 2 ranks) and
+    evaluate on every snapshot the part of the oracle that needs no model: the file is decodable by
+    the specification decoder, its layout obeys the format rules, the library's reports match it"""
+    obj = json.load(open(path))
+    r = obj.get('replay') or {}
+    script = r.get('script') or (r.get('where') or {}).get('script')
+    if not script:
+        log('nothing to replay in', path)
+        return 2
+    tree = build_impl('plain')
+    wd = workdir('c03r')
+    lean = None
+    try:
+        lake_build(['c03drv'])
+        lean = LeanProc(os.path.join(LEAN, '.lake/build/bin/c03drv'))
+        api = cc(tree, [os.path.join(VERIF, 'harness/c03_api.c')], os.path.join(wd, 'c03_api'))
+        import re as _re
+        lines = [_re.sub(r'/\S*/([A-Za-z0-9_]+\.nc)', lambda mm: os.path.join(wd, mm.group(1)), l) for l in script]
+        sf = os.path.join(wd, 'script.txt')
+        open(sf, 'w').write(''.join(l + '\n' for l in lines))
+        bad = 0
+        for n in (1, 2):
+            for f in os.listdir(wd):
+                if f.endswith('.nc'):
+                    os.unlink(os.path.join(wd, f))
+            rc, so, se = mpirun(n, [api, sf, os.path.join(wd, 'out%d' % n)], timeout=300)
+            outs = open(os.path.join(wd, 'out%d.0' % n)).read().split('\n')[:-1]
+            log('--- %d rank(s): rc=%s, %d of %d answers' % (n, rc, len(outs), len(lines)))
+            last_inq = None
+            for l, a in zip(lines, outs):
+                t = a.split()
+                show = a if len(a) < 160 else a[:160] + '...'
+                if t and t[0] == 'inq' and t[1] == '0':
+                    last_inq = [int(x) for x in t[2:]]
+                if t and t[0] == 'snap' and t[1] == '0':
+                    fb = unhx(t[3])
+                    ans = lean.ask('SPEC ' + hx(fb[:400000]))
+                    tt = ans.split()
+                    consumed = int(tt[-1]) if tt and tt[0] == 'OK' else 0
+                    v = oracle(fb, ans, dict(schema=None, data={}, xsz=consumed, reported=last_inq))
+                    show += '   oracle: ' + ('ok' if not v else 'FAIL %s: %s' % v)
+                    bad += 1 if v else 0
+                elif len(t) > 1 and t[1] != '0':
+                    bad += 1
+                    show += '   <-- API error'
+                log('%-60s -> %s' % (l[:60], show))
+            if rc != 0 or len(outs) < len(lines):
+                bad += 1
+        return 1 if bad else 0
+    finally:
+        if lean:
+            lean.close()
+        cleanup(wd)
+
+
 if __name__ == '__main__':
     tier, seed, replay = args(sys.argv[1:])
+    if replay:
+        sys.exit(replay_file(replay))
     sys.exit(run_check(tier, seed))
